@@ -82,10 +82,13 @@ def configs(tier, seed):
                         'kind': 'inject', 'n': 3000, 'journal': True})
             out.append({'name': impl + '-preempt', 'impl': impl,
                         'mode': 'hyp', 'kind': 'preempt', 'n': 400,
-                        'kmax': 80, 'journal': True})
+                        'kmax': 120, 'journal': True})
             out.append({'name': impl + '-leak', 'impl': impl, 'mode': 'hyp',
                         'kind': 'leak', 'n': 300, 'reps': 40,
                         'journal': True})
+            out.append({'name': impl + '-preempt2', 'impl': impl,
+                        'mode': 'hyp', 'kind': 'preempt2', 'n': 250,
+                        'kmax': 120, 'journal': True})
             out.append({'name': impl + '-sched', 'impl': impl, 'mode': 'hyp',
                         'kind': 'sched', 'n': 1200, 'journal': True})
             out.append({'name': impl + '-stress', 'impl': impl, 'mode': 'hyp',
@@ -104,6 +107,10 @@ def configs(tier, seed):
         out.append({'name': impl + '-leak', 'impl': impl, 'mode': 'hyp',
                     'kind': 'leak', 'n': 1500, 'reps': 60, 'journal': True})
         for shard in range(2):
+            out.append({'name': '%s-preempt2-%d' % (impl, shard),
+                        'impl': impl, 'mode': 'hyp', 'kind': 'preempt2',
+                        'n': 400, 'kmax': 100000, 'shard': shard,
+                        'journal': True})
             out.append({'name': '%s-sched-%d' % (impl, shard), 'impl': impl,
                         'mode': 'hyp', 'kind': 'sched', 'n': 6000,
                         'shard': shard, 'journal': True})
@@ -274,6 +281,9 @@ def preempt_case(draw):
     # to a concurrent reader (it replaces every internal structure)
     mut = draw(mutation_op(allow_spec=False,
                            allow_rebuild=(direction == 'LM')))
+    if direction == 'ML' and draw(st.integers(0, 3)) == 0:
+        # a specification changing while lookups subscribe to it
+        mut = ['itoggle', draw(st.integers(0, 40)), draw(IDX)]
     warm = draw(st.lists(st.tuples(st.sampled_from(ENTRY[:9]),
                                    st.booleans()).map(list), max_size=2))
     return {'kind': 'preempt', 'bp': bp, 'contents': contents,
@@ -281,6 +291,75 @@ def preempt_case(draw):
             'entry2': draw(st.sampled_from(ENTRY[:9])),
             'same2': draw(st.booleans()), 'key2': draw(key_strategy()),
             'warm': warm,
+            'toggle': [draw(st.integers(0, 40)), draw(IDX)],
+            'koff': draw(st.integers(0, 1000))}
+
+
+@st.composite
+def preempt2_case(draw):
+    bp, contents = draw(base_case())
+    contents += [[draw(st.sampled_from(['regfor', 'subfor'])), draw(IDX),
+                  draw(IDX)] for _ in range(draw(st.integers(0, 2)))]
+    # chains with a verifying registry at the bottom are where a lookup
+    # runs changed() itself
+    if draw(st.booleans()):
+        while len(bp['regs']) < 2:
+            bp['regs'].append({'bases': [len(bp['regs']) - 1],
+                               'flavour': 'verifying'})
+        bp['regs'][-1]['flavour'] = 'verifying'
+        if not bp['regs'][-1]['bases']:
+            bp['regs'][-1]['bases'] = [len(bp['regs']) - 2]
+    entry = draw(st.sampled_from(ENTRY[:9]))
+    key = draw(key_strategy(1, bp))
+    if bp['regs'][-1]['flavour'] == 'verifying' and draw(st.booleans()):
+        key[0] = len(bp['regs']) - 1
+
+    def mut():
+        return draw(mutation_op(allow_spec=False, allow_rebuild=False).filter(
+            lambda o: o[0] != 'itoggle'))
+
+    def look():
+        return ['L', draw(st.sampled_from(ENTRY[:9])),
+                draw(st.integers(0, 3)) == 0, draw(key_strategy(0, bp))]
+    # with a verifying registry at the bottom, aim the mutations at its
+    # first base half of the time: only then does the lookup find out by
+    # itself (generations) instead of being told
+    at_base = key[0] == len(bp['regs']) - 1 and \
+        bp['regs'][-1]['flavour'] == 'verifying' and draw(st.booleans())
+
+    def aimed(op):
+        if at_base and op[0] in ('treg', 'tsub', 'changed', 'rebuild'):
+            op = list(op)
+            op[1] = 1          # index into the chain: the first base
+        return op
+    pre = [aimed(mut())] if draw(st.integers(0, 3)) else []
+    if draw(st.booleans()):
+        x = ['L']
+        ys = draw(st.sampled_from(['LM', 'ML', 'M', 'LM', 'LL']))
+    else:
+        x = ['M', aimed(mut())]
+        ys = draw(st.sampled_from(['L', 'LL']))
+    ys = [look() if c == 'L' else ['M', aimed(mut())] for c in ys]
+    if at_base and draw(st.booleans()):
+        # the scenario that needs three operations in flight: a lookup
+        # that has just noticed a change of its base (pre) and is running
+        # changed() itself, another lookup of the same key, and a second
+        # change of the base
+        def tmut():
+            pick = draw(st.sampled_from([0, 0, 1, 2]))
+            if draw(st.integers(0, 2)):
+                return ['treg', 1, pick, draw(st.integers(0, 3)), False,
+                        False]
+            return ['tsub', 1, pick, False]
+        pre = [tmut()]
+        x = ['L']
+        first = ['L', draw(st.sampled_from([entry, entry] + ENTRY[:9])),
+                 False, key]
+        ys = [first, ['M', tmut()]]
+        contents = contents + [['treg', 1, 3, 0, False, False]]
+    return {'kind': 'preempt2', 'bp': bp, 'contents': contents,
+            'entry': entry, 'key': key, 'pre': pre, 'x': x, 'ys': ys,
+            'warm': draw(st.lists(st.sampled_from(ENTRY[:9]), max_size=2)),
             'toggle': [draw(st.integers(0, 40)), draw(IDX)],
             'koff': draw(st.integers(0, 1000))}
 
@@ -380,7 +459,7 @@ def stress_case(draw):
 def strategy(cfg):
     return {'inject': inject_case, 'preempt': preempt_case,
             'leak': leak_case, 'stress': stress_case,
-            'sched': sched_case}[cfg['kind']]()
+            'sched': sched_case, 'preempt2': preempt2_case}[cfg['kind']]()
 
 
 # ---------------------------------------------------------------------------
@@ -464,6 +543,9 @@ def hooked_classes():
     def _set(self, v):
         self.__dict__['_gen'] = v
 
+    # a thread can be pre-empted while the C code reads generations
+    TRACED_CODES.add(_get.__code__)
+
     class HPlain(AdapterRegistry):
         LookupClass = mk(AdapterLookup)
         _generation = property(_get, _set)
@@ -494,6 +576,11 @@ class Factory(Val):
 # the world of one case
 
 
+class _Default:
+    def __repr__(self):
+        return "'dflt'"
+
+
 class World:
 
     def __init__(self, case, out, plain_objects=False):
@@ -513,7 +600,9 @@ class World:
         self.counter = 0
         self.initial_bases = [list(U.model.bases[r])
                               for r in range(len(U.regs))]
-        self.D = 'dflt'
+        # a fresh object (a string literal is immortal: its reference
+        # count would not show a leak)
+        self.D = _Default()
         self._providedBy = providedBy
         self._objs = {}
         self._cinst = {}
@@ -1081,6 +1170,8 @@ def run_inject(case, cfg, out):
                 for m in W.concretize(op, key):
                     W.do(m)
                     out.tag('act_' + m[0])
+                    if m[0] in ('ibases', 'decl'):
+                        state['spec_level'] = True
         if state['audit'] is not None:
             state['audit'].measure()
         if then_raise:
@@ -1119,7 +1210,15 @@ def run_inject(case, cfg, out):
         out.nontrivial = True
         out.tag('answer_changes')
     out.checks += 1
-    if got != ('boom',) and got != before and got != after:
+    if state.get('spec_level'):
+        # The statement demands a before-or-after answer of a lookup
+        # interrupted by a mutation of the REGISTRY.  A change of a
+        # required specification reaches the resolution orders of several
+        # specifications, which a lookup reads one after the other (once
+        # per registry of the chain): the interrupted call may mix them.
+        # What is demanded is that nothing of it stays in the caches.
+        out.tag('spec_level_answer_not_judged')
+    elif got != ('boom',) and got != before and got != after:
         out.fail('torn-answer-' + entry,
                  '%s: answered %r; a registry that never served a lookup '
                  'answers %r before and %r after the action %r' % (
@@ -1188,12 +1287,18 @@ _TRACED = {}
 LAST_SITE = [None]
 
 
+TRACED_CODES = set()
+
+
 def _traced_file(fn):
     r = _TRACED.get(fn)
     if r is None:
         r = ('/zope/interface/' in fn and '/tests/' not in fn and
              fn.endswith(('adapter.py', 'interface.py', 'ro.py',
-                          'declarations.py', 'registry.py')))
+                          'declarations.py', 'registry.py'))) or \
+            fn.endswith(('/weakref.py', '/_weakrefset.py'))
+        # (the tables of dependents and sub-registries are weak
+        # dictionaries implemented in Python: threads switch inside them)
         _TRACED[fn] = r
     return r
 
@@ -1223,7 +1328,37 @@ def _prime():
     _PRIMED[0] = True
 
 
-def run_traced(fn, k, inject):
+def choose_ks(N, sites, kmax, koff):
+    """which opcode events to interrupt at when there are more than kmax:
+    stratified by code location (file, line) - the first occurrence of
+    every location and one more chosen by koff - then filled up evenly over
+    time.  Every location that the operation executes is interrupted at
+    least once even when the operation runs for thousands of events."""
+    if N <= kmax:
+        return list(range(1, N + 1))
+    by_site = {}
+    for i, site in enumerate(sites):
+        by_site.setdefault(site, []).append(i + 1)
+    picked = []
+    for site in sorted(by_site, key=lambda x: by_site[x][0]):
+        occ = by_site[site]
+        picked.append(occ[0])
+        if len(occ) > 1:
+            picked.append(occ[1 + koff % (len(occ) - 1)])
+    picked = sorted(set(picked))
+    if len(picked) > kmax:
+        step = len(picked) / float(kmax)
+        picked = sorted(set(picked[int(i * step)] for i in range(kmax)))
+    else:
+        need = kmax - len(picked)
+        step = N / float(max(1, need))
+        off = koff % max(1, int(step))
+        picked = sorted(set(picked) | set(
+            min(N, 1 + off + int(i * step)) for i in range(need)))
+    return picked
+
+
+def run_traced(fn, k, inject, sites=None):
     """run fn(); at the k-th opcode event of a traced frame run inject()
     inline.  Returns (result, exception, number of events, injected?)"""
     if not _PRIMED[0]:
@@ -1234,6 +1369,8 @@ def run_traced(fn, k, inject):
     def local(frame, event, arg):
         if event == 'opcode':
             count[0] += 1
+            if sites is not None:
+                sites.append((frame.f_code.co_filename, frame.f_lineno))
             if count[0] == k and not done[0]:
                 done[0] = True
                 LAST_SITE[0] = '%s:%s in %s' % (
@@ -1243,7 +1380,8 @@ def run_traced(fn, k, inject):
         return local
 
     def glob(frame, event, arg):
-        if _traced_file(frame.f_code.co_filename):
+        if _traced_file(frame.f_code.co_filename) or \
+                frame.f_code in TRACED_CODES:
             frame.f_trace_opcodes = True
             return local
         return None
@@ -1370,18 +1508,12 @@ def run_preempt(case, cfg, out):
 
     # dry run: number of opcode events of X
     regs = fresh()
-    _, exc, N, _ = run_traced(lambda: X(regs), -1, lambda: None)
+    sites = []
+    _, exc, N, _ = run_traced(lambda: X(regs), -1, lambda: None, sites)
     unmutate() if direction == 'ML' else None
     if exc is not None:
         raise exc
-    kmax = int(cfg.get('kmax', 64))
-    if N <= kmax:
-        ks = list(range(1, N + 1))
-    else:
-        step = N / float(kmax)
-        off = case['koff'] % max(1, int(step))
-        ks = sorted(set(min(N, 1 + off + int(i * step))
-                        for i in range(kmax)))
+    ks = choose_ks(N, sites, int(cfg.get('kmax', 64)), case['koff'])
     out.tag('events_%s' % ('le100' if N <= 100 else 'le300' if N <= 300
                            else 'gt300'))
     for k in ks:
@@ -1415,7 +1547,9 @@ def run_preempt(case, cfg, out):
             if not injected:
                 continue
             lookup_res = xres if direction != 'ML' else ybox.get('res')
-            if lookup_res != before[kidx] and lookup_res != after[kidx]:
+            if spec_level:
+                out.tag('spec_level_answer_not_judged')   # see run_inject
+            elif lookup_res != before[kidx] and lookup_res != after[kidx]:
                 out.fail('preempt-torn-' + entry,
                          '%s: the lookup answered %r; before %r, after %r' % (
                              where, lookup_res, before[kidx], after[kidx]))
@@ -1474,6 +1608,204 @@ def run_preempt(case, cfg, out):
             unmutate()
     W.regs_made[:] = regs_made0
     W.subs_made[:] = subs_made0
+
+
+# ---------------------------------------------------------------------------
+# preempt2: X interrupted at opcode event k by TWO complete operations of
+# other threads (a lookup and a mutation, in either order), optionally after
+# a mutation that makes X itself run changed() (verifying flavour)
+
+
+def run_preempt2(case, cfg, out):
+    W = World(case, out)
+    entry = case['entry']
+    key = W.norm_key(entry, case['key'])
+    W.setup_contents(key)
+    log0 = list(W.log)
+
+    def concrete(op):
+        ms = [m for m in W.concretize(op, key) if m[0] != 'ibases'
+              and m[0] != 'decl']
+        for m in ms:
+            if m[0] == 'bases':
+                W.U.model.set_bases(m[1], list(m[2]))
+            elif m[0] == 'register':
+                W.regs_made.append(m)
+            elif m[0] == 'subscribe':
+                W.subs_made.append(m)
+        return ms
+
+    pre = []
+    for op in case['pre']:
+        pre += concrete(op)
+    xm = concrete(case['x'][1]) if case['x'][0] == 'M' else None
+    if case['x'][0] == 'M' and not xm:
+        out.tag('mutator_not_applicable')
+        return
+    ys = []
+    for y in case['ys']:
+        if y[0] == 'L':
+            k2 = W.norm_key(y[1], y[3] if y[2] else case['key'])
+            if k2[0] in ('lookup1', 'queryAdapter', 'adapter_hook') and \
+                    len(k2[2]) != 1:
+                k2 = key
+            ys.append(('L', k2))
+        else:
+            ms = concrete(y[1])
+            if ms:
+                ys.append(('M', ms))
+    if not ys:
+        out.tag('mutator_not_applicable')
+        return
+    the_mutation = xm if xm is not None else \
+        [m for y in ys if y[0] == 'M' for m in y[1]]
+    out.tag('x_' + case['x'][0], 'ys_' + ''.join(y[0] for y in ys),
+            'pre' if pre else 'nopre')
+
+    keys = W.all_entries(key)
+    for y in ys:
+        if y[0] == 'L' and y[1] not in keys:
+            keys.append(y[1])
+    kidx = keys.index(key)
+
+    def answers(regs):
+        return [W.answer(regs, k) for k in keys]
+
+    def fresh():
+        regs = W.build(log0)
+        # warm: always through the interrupted entry point, so that the
+        # verifying flavour has recorded generations that `pre` outdates
+        for wentry in [entry] + list(case['warm']):
+            wk = W.norm_key(wentry, case['key'])
+            if wk[0] in ('lookup1', 'queryAdapter', 'adapter_hook') and \
+                    len(wk[2]) != 1:
+                continue
+            W.answer(regs, wk)
+        for m in pre:
+            apply_concrete(regs, m)
+        return regs
+
+    t = W.build(log0 + pre)
+    before = answers(t)
+    t = W.build(log0 + pre + the_mutation)
+    after = answers(t)
+    tg = W.concretize(['itoggle'] + list(case['toggle']), key)
+    after_toggle = None
+    if tg:
+        tg_old = ('ibases', tg[0][1], list(W.ibases[tg[0][1]]))
+        W.do(tg[0])
+        after_toggle = answers(t)
+        W.do(tg_old)
+    if before != after:
+        out.nontrivial = True
+        out.tag('answer_changes')
+
+    if xm is None:
+        def X(regs):
+            return W.answer(regs, key)
+    else:
+        def X(regs):
+            for m in xm:
+                apply_concrete(regs, m)
+
+    regs = fresh()
+    sites = []
+    _, exc, N, _ = run_traced(lambda: X(regs), -1, lambda: None, sites)
+    if exc is not None:
+        raise exc
+    ks = choose_ks(N, sites, int(cfg.get('kmax', 64)), case['koff'])
+    for k in ks:
+        regs = fresh()
+        ybox = {'res': [], 'mutated': False}
+
+        def inject():
+            try:
+                for y in ys:
+                    if y[0] == 'L':
+                        ybox['res'].append(
+                            (y[1], ybox['mutated'], W.answer(regs, y[1])))
+                    else:
+                        for m in y[1]:
+                            apply_concrete(regs, m)
+                        ybox['mutated'] = True
+            except Exception as e:  # noqa
+                ybox['exc'] = e
+
+        xres, xexc, n, injected = run_traced(lambda: X(regs), k, inject)
+        out.checks += 1
+        where = 'X=%s interrupted at opcode event %d of %d [%s] by %s ' \
+            '(after %s; registry %d %s)' % (
+                entry if xm is None else xm[0][0], k, N, LAST_SITE[0],
+                ' then '.join(y[1][0] if y[0] == 'L' else y[1][0][0]
+                              for y in ys),
+                pre[0][0] if pre else 'nothing', key[1],
+                W.U.flavours[key[1]])
+        if xexc is not None:
+            out.fail('preempt2-exception-X:%s' % type(xexc).__name__,
+                     '%s: X raised %r' % (where, xexc))
+            return
+        if 'exc' in ybox:
+            out.fail('preempt2-exception-Y:%s' % type(ybox['exc']).__name__,
+                     '%s: an interleaved operation raised %r' % (
+                         where, ybox['exc']))
+            return
+        if not injected:
+            continue
+        if xm is None and xres != before[kidx] and xres != after[kidx]:
+            out.fail('preempt2-torn-' + entry,
+                     '%s: the interrupted lookup answered %r; before %r, '
+                     'after %r' % (where, xres, before[kidx], after[kidx]))
+            return
+        for k2, mutated, a in ybox['res']:
+            i = keys.index(k2)
+            if xm is None:
+                ok = [after[i] if mutated else before[i]]
+            else:
+                ok = [before[i], after[i]]
+            if a not in ok:
+                out.fail('preempt2-other-lookup-' + k2[0],
+                         '%s: the interleaved %s answered %r, correct: %r' % (
+                             where, k2[0], a, ok))
+                return
+
+        def plain_check():
+            now = answers(regs)
+            if now != after:
+                bad = [i for i in range(len(keys)) if now[i] != after[i]][0]
+                out.fail('preempt2-stale-' + keys[bad][0],
+                         '%s: afterwards %s answers %r, a registry that was '
+                         'never interrupted answers %r\n%s' % (
+                             where, keys[bad][0], now[bad], after[bad],
+                             _diag(regs, key[1], 0, 0, 0)))
+                return False
+            return True
+
+        def toggle_check():
+            if not tg:
+                return True
+            W.do(tg[0])
+            try:
+                first = W.answer(regs, keys[kidx])
+                now = answers(regs)
+                now[kidx] = first
+            finally:
+                W.do(tg_old)
+            if now != after_toggle:
+                bad = [i for i in range(len(keys))
+                       if now[i] != after_toggle[i]][0]
+                out.fail('preempt2-stale-after-rebase-' + keys[bad][0],
+                         '%s: after a later re-base of a required interface '
+                         '%s answers %r, expected %r' % (
+                             where, keys[bad][0], now[bad],
+                             after_toggle[bad]))
+                return False
+            return True
+
+        order = [plain_check, toggle_check]
+        if k % 2:
+            order.reverse()
+        if not (order[0]() and order[1]()):
+            return
 
 
 # ---------------------------------------------------------------------------
@@ -1561,7 +1893,8 @@ def run_scheduled(bodies, segments):
             return local
 
         def glob(frame, event, arg):
-            if _traced_file(frame.f_code.co_filename):
+            if _traced_file(frame.f_code.co_filename) or \
+                    frame.f_code in TRACED_CODES:
                 frame.f_trace_opcodes = True
                 return local
             return None
@@ -1728,6 +2061,9 @@ def run_sched(case, cfg, out):
                 out.checks += 1
                 if s1 - f0 == 0:
                     ok = [A[f0][i]]
+                elif s1 - f0 == 1 and ms[f0][0] == 'ibases':
+                    out.tag('spec_level_answer_not_judged')
+                    continue
                 elif s1 - f0 == 1:
                     ok = [A[f0][i], A[f0 + 1][i]]
                 else:
@@ -2062,7 +2398,11 @@ def run_stress(case, cfg, out):
                             s1 = started[0]
                             # mutations f0+1 .. s1 may have overlapped
                             # the call
-                            if s1 - f0 > 1:
+                            if s1 - f0 > 1 or (
+                                    s1 - f0 == 1 and
+                                    seq[f0 % nseq][0] == 'ibases'):
+                                # several mutations, or a change of a
+                                # specification (see run_inject)
                                 judged[2] += 1
                                 continue
                             ok = [A[f0 % nseq][i]] if nseq else [A[0][i]]
@@ -2170,6 +2510,8 @@ def run_case(case, cfg, out):
             run_stress(case, cfg, out)
         elif kind == 'sched':
             run_sched(case, cfg, out)
+        elif kind == 'preempt2':
+            run_preempt2(case, cfg, out)
         else:
             raise ValueError(kind)
     finally:
